@@ -74,6 +74,35 @@ TOP = AV()
 _SX_NODES = (ast.BinOp, ast.Compare, ast.Call, ast.Subscript, ast.UnaryOp, ast.Attribute, ast.IfExp)
 _SX_TYS = frozenset([None, 'ndarray', 'float', 'int', 'Series', 'DataFrame', 'list', 'tuple', 'bool', 'Row', 'FloatWithUnit'])
 _SX_PARSE = {}
+SX_LONG = {}  # digest -> abbreviated definition text
+
+
+def _sx_leaves(node):
+    """Name loads and attribute chains on names (self.x.y) inside `node`, outermost first; the node itself is excluded."""
+    out = []
+
+    def rec(n, top):
+        if isinstance(n, ast.Name):
+            if isinstance(n.ctx, ast.Load) and not top:
+                out.append(n)
+            elif isinstance(n.ctx, ast.Load) and top:
+                pass
+            return
+        if isinstance(n, ast.Attribute) and isinstance(n.ctx, ast.Load) and not top:
+            b = n
+            while isinstance(b, ast.Attribute):
+                b = b.value
+            if isinstance(b, ast.Name):
+                out.append(n)
+                # the chain below may be substituted as well when the outer one is not
+                rec(n.value, False)
+                return
+        for c in ast.iter_child_nodes(n):
+            rec(c, False)
+    rec(node, True)
+    if isinstance(node, ast.Name):
+        return []
+    return out
 
 
 def const(v):
@@ -760,6 +789,12 @@ class Interp:
         self.values_store(node, v, frame)
         return v
 
+    def _own_text(self, node):
+        t = self._sx_cache.get(('own', id(node)))
+        if t is None:
+            t = self._sx_cache[('own', id(node))] = norm_text(node)
+        return t
+
     def _is_data_attr(self, node, st):
         b = self.last.get(id(node.value))
         return b is not None and b.ty == 'obj' and b.oid in st.heap and node.attr in st.heap[b.oid]
@@ -777,14 +812,21 @@ class Interp:
         subs = None
         names = self._sx_names.get(id(node))
         if names is None:
-            names = self._sx_names[id(node)] = [ch for ch in ast.walk(node) if isinstance(ch, ast.Name) and isinstance(ch.ctx, ast.Load)]
+            names = self._sx_names[id(node)] = _sx_leaves(node)
         for ch in names:
-            if True:
-                cv = self.last.get(id(ch))
-                if cv is not None and cv.sx is not None and cv.sx != ch.id:
+            cv = self.last.get(id(ch))
+            if cv is not None and cv.sx is not None:
+                own = ch.id if isinstance(ch, ast.Name) else self._own_text(ch)
+                if cv.sx != own:
                     if subs is None:
                         subs = {}
-                    subs[id(ch)] = cv.sx
+                    # long definitions are abbreviated by a digest: identity is kept, the outer structure stays readable
+                    if len(cv.sx) <= 160:
+                        subs[id(ch)] = cv.sx
+                    else:
+                        h = 'H' + hashlib.sha1(cv.sx.encode()).hexdigest()[:12]
+                        SX_LONG[h] = cv.sx
+                        subs[id(ch)] = h
         if not subs:
             t = self._sx_cache.get(id(node))
             if t is None:
@@ -796,7 +838,7 @@ class Interp:
             return hit
 
         def sub(n):
-            if isinstance(n, ast.Name) and id(n) in subs:
+            if isinstance(n, (ast.Name, ast.Attribute)) and id(n) in subs:
                 txt = subs[id(n)]
                 tree = _SX_PARSE.get(txt)
                 if tree is None:
@@ -818,7 +860,7 @@ class Interp:
             out = ast.unparse(sub(node))
         except Exception:
             out = norm_text(node)
-        if len(out) > 600:
+        if len(out) > 2000:
             out = 'H' + hashlib.sha1(out.encode()).hexdigest()[:12]
         self._sx_cache[key] = out
         return out
